@@ -27,12 +27,12 @@ Proof.
   constructor; unfold cslots, blocks; rewrite ?elems_init; cbn; try constructor; intros s [].
 Qed.
 
-Lemma BInv_insert k pos key val c o ser nid c' ser' nid' ev :
-  shape k c -> BInv c o ser -> c_insert k pos key val c ser nid = (c', ser', nid', ev) ->
+Lemma BInv_ins_eff k key val c o ser nid c' ser' nid' ev :
+  BInv c o ser -> InsEff k key val c ser nid c' ser' nid' ev ->
   BInv c' o ser' /\ incl (blocks c) (blocks c').
 Proof.
-  intros Hs [H1 H2 H3 H4] E.
-  destruct (c_insert_effect _ _ _ _ _ _ _ _ _ _ _ Hs E)
+  intros [H1 H2 H3 H4] E.
+  destruct E
     as (_ & _ & [(-> & -> & Ep & Hel)|(-> & nd & l1 & l2 & ser1 & ev1 & ev2 & E1 & E2 & E3 & Hle & Ea & _)]).
   - assert (Hsl : slots (elems c') = slots (elems c)).
     { destruct Hel as [->|(_ & l1 & x & l2 & F1 & F2 & _)]; auto.
@@ -57,6 +57,11 @@ Proof.
       * cbn [app]. constructor; auto. intro Hin. rewrite Forall_forall in H4. specialize (H4 _ Hin). cbn in H4. lia.
       * cbn [app]. constructor; [lia|]. apply (Forall_lt_mono (fun b => b) ser (S ser1)); auto.
 Qed.
+
+Lemma BInv_insert k pos key val c o ser nid c' ser' nid' ev :
+  shape k c -> BInv c o ser -> c_insert k pos key val c ser nid = (c', ser', nid', ev) ->
+  BInv c' o ser' /\ incl (blocks c) (blocks c').
+Proof. intros Hs Hb E. eapply BInv_ins_eff; eauto. eapply c_insert_eff; eauto. Qed.
 
 Lemma BInv_remove k pos c o ser c' ev :
   shape k c -> BInv c o ser -> c_remove_at pos c = (c', ev) -> BInv c' o ser /\ blocks c' = blocks c.
@@ -88,18 +93,30 @@ Proof.
   - rewrite Forall_forall in *. intros x Hx. apply H4. in_solve.
 Qed.
 
-Lemma BInv_assign_fold k o src : forall c ser nid ev c' ser' nid' ev',
+Lemma BInv_ins_fold k o off src : forall c ser nid ev c' ser' nid' ev',
   shape k c -> BInv c o ser ->
-  fold_left (assign_fold k) src (c, ser, nid, ev) = (c', ser', nid', ev') ->
+  fold_left (ins_fold k off) src (c, ser, nid, ev) = (c', ser', nid', ev') ->
   BInv c' o ser' /\ incl (blocks c) (blocks c').
 Proof.
   induction src as [|e src IH]; intros c ser nid ev c' ser' nid' ev' Hs Hb E; cbn [fold_left] in E.
   - injection E as <- <- <- <-. split; auto. apply incl_refl.
-  - unfold assign_fold at 2 in E.
-    destruct (c_insert k (length (elems c)) (n_key e) (n_val e) c ser nid) as [[[c2 ser2] nid2] ev2] eqn:Ei.
+  - unfold ins_fold at 2 in E.
+    destruct (c_insert k (ins_pos off c) (n_key e) (n_val e) c ser nid) as [[[c2 ser2] nid2] ev2] eqn:Ei.
     destruct (BInv_insert _ _ _ _ _ _ _ _ _ _ _ _ Hs Hb Ei) as (Hb2 & Hi2).
     destruct (c_insert_effect _ _ _ _ _ _ _ _ _ _ _ Hs Ei) as (Hs2 & _).
     destruct (IH _ _ _ _ _ _ _ _ Hs2 Hb2 E) as (K1 & K2). split; auto. eapply incl_tran; eauto.
+Qed.
+
+Lemma BInv_rem_fold k o ser src : forall c ev c' ev',
+  shape k c -> BInv c o ser -> fold_left (rem_fold k) src (c, ev) = (c', ev') -> BInv c' o ser /\ blocks c' = blocks c.
+Proof.
+  induction src as [|e src IH]; intros c ev c' ev' Hs Hb E; cbn [fold_left] in E.
+  - injection E as <- <-. auto.
+  - unfold rem_fold at 2 in E. destruct (find_pos k (n_key e) c) as [i|]; [|eapply IH; eauto].
+    destruct (c_remove_at i c) as [c2 ev2] eqn:Er.
+    destruct (BInv_remove _ _ _ _ _ _ _ Hs Hb Er) as (Hb2 & Hbl).
+    destruct (c_remove_at_effect _ _ _ _ _ Hs Er) as (Hs2 & _).
+    destruct (IH _ _ _ _ Hs2 Hb2 E) as (K1 & K2). split; auto. congruence.
 Qed.
 
 Definition SBInv (st : state) : Prop := BInv (s_a st) (s_b st) (s_ser st).
@@ -136,7 +153,7 @@ Proof.
              (incl (blocks (s_a st)) (blocks (s_a (set_sel st c' (s_ser st) (s_nid st)))) /\
               incl (blocks (s_b st)) (blocks (s_b (set_sel st c' (s_ser st) (s_nid st)))))).
   { intros pos c' ev' Er. destruct (BInv_remove _ _ _ _ _ _ _ Hs Hb Er) as (H1 & H2). apply G; auto. rewrite H2. apply incl_refl. }
-  unfold step in E. destruct o as [b|key v|key v|pos key v|pos| | |key| | | | ]; cbn [keeps_blocks].
+  unfold step in E. destruct o as [b|key v|key v|pos key v|pos| | |key| | | | |ipos| |hpos key v]; cbn [keeps_blocks].
   - injection E as <- <-. split; [exact HB|]. intros _. cbn [s_a s_b]. split; apply incl_refl.
   - destruct (c_insert k (length (elems (sel st))) key v (sel st) (s_ser st) (s_nid st)) as [[[c' ser'] nid'] ev'] eqn:Ei.
     injection E as <- <-. destruct (GI _ _ _ _ _ _ _ Ei). auto.
@@ -160,10 +177,23 @@ Proof.
     injection E as <- <-. rewrite c_assign_eq in Ea. destruct (c_clear (sel st)) as [c0 ev0] eqn:Ec.
     destruct (BInv_clear _ _ _ _ _ _ Hs Hb Ec) as (H1 & H2).
     destruct (c_clear_effect _ _ _ _ Hs Ec) as (Hs0 & _).
-    destruct (BInv_assign_fold _ _ _ _ _ _ _ _ _ _ _ Hs0 H1 Ea) as (K1 & K2).
+    destruct (BInv_ins_fold _ _ _ _ _ _ _ _ _ _ _ _ Hs0 H1 Ea) as (K1 & K2).
     destruct (G c' ser' nid' K1 ltac:(rewrite <- H2; exact K2)). auto.
   - unfold c_destroy in E. injection E as <- <-. split; [|discriminate].
     apply SBInv_set_sel. eapply BInv_destroy. exact Hb.
+  - destruct (has_insall k); [|injection E as <- <-; split; auto; intros _; split; apply incl_refl].
+    destruct (c_insert_all k ipos (elems (other st)) (sel st) (s_ser st) (s_nid st)) as [[[c' ser'] nid'] ev'] eqn:Ea.
+    injection E as <- <-. unfold c_insert_all in Ea.
+    destruct (BInv_ins_fold _ _ _ _ _ _ _ _ _ _ _ _ Hs Hb Ea) as (K1 & K2).
+    destruct (G c' ser' nid' K1 K2). auto.
+  - destruct (has_remall k); [|injection E as <- <-; split; auto; intros _; split; apply incl_refl].
+    destruct (c_remove_all k (elems (other st)) (sel st)) as [c' ev'] eqn:Er. injection E as <- <-. unfold c_remove_all in Er.
+    destruct (BInv_rem_fold _ _ _ _ _ _ _ _ Hs Hb Er) as (K1 & K2).
+    destruct (G c' (s_ser st) (s_nid st) K1 ltac:(rewrite K2; apply incl_refl)). auto.
+  - destruct (has_hint k); [|injection E as <- <-; split; auto; intros _; split; apply incl_refl].
+    destruct (c_insert_hint k hpos key v (sel st) (s_ser st) (s_nid st)) as [[[c' ser'] nid'] ev'] eqn:Ei.
+    injection E as <- <-. destruct (BInv_ins_eff _ _ _ _ _ _ _ _ _ _ _ Hb (c_insert_hint_eff _ _ _ _ _ _ _ _ _ _ _ Hs Ei)) as (B1 & B2).
+    destruct (G c' ser' nid' B1 B2). auto.
 Qed.
 
 Lemma run_sbinv k cap ops : forall st, Inv k st -> SBInv st -> SBInv (run k cap st ops).
